@@ -134,7 +134,7 @@ func TestVerif_C09_jobfault(t *testing.T) {
 					nb += (len(o.Src[m.Name]) + cfg.Batch - 1) / cfg.Batch
 				}
 				if nb > 0 {
-					op.Fault = rapid.SampledFrom([]string{"", "sinkerr", "sinkerr", "kill"}).Draw(t, "fault")
+					op.Fault = rapid.SampledFrom([]string{"", "sinkerr", "sinkerr", "storeerr", "kill"}).Draw(t, "fault")
 					if op.Fault != "" {
 						op.At = rapid.IntRange(1, nb+1).Draw(t, "at")
 					}
